@@ -16,12 +16,15 @@ def main():
     seeded = False
     names = []
     scale = os.environ.get("VERIF_SCALE", "100")
+    seeds = [os.environ.get("VERIF_SEED", "1")]
     while args:
         a = args.pop(0)
         if a == "-p":
             props = args.pop(0).split(",")
         elif a == "--seeded":
             seeded = True
+        elif a == "--seeds":
+            seeds = args.pop(0).split(",")
         else:
             names.append(a)
     if seeded:
@@ -48,17 +51,27 @@ def main():
                 print("%-45s patch does not apply: %s" % (name, ap.stdout.strip()[:200]))
                 continue
             for pid in (props or expected):
-                env = dict(ENV, VERIF_REPO=wt, VERIF_SCALE=scale, VERIF_SHRINKTIME="3s")
                 t0 = time.time()
-                p = subprocess.run([os.path.join(ROOT, "check"), "quick", pid], env=env, stdout=subprocess.PIPE, stderr=subprocess.STDOUT, text=True)
-                verdict = {0: "MISSED", 1: "caught", 2: "inconclusive"}.get(p.returncode, "rc=%d" % p.returncode)
-                if p.returncode == 1 and "VIOLATION property=" not in p.stdout:
-                    verdict = "driver-error"  # an exception in the driver is not a catch
-                    print(p.stdout[-1500:])
+                verdicts = []
+                for sd in seeds:
+                    env = dict(ENV, VERIF_REPO=wt, VERIF_SCALE=scale, VERIF_SHRINKTIME="3s", VERIF_SEED=sd)
+                    p = subprocess.run([os.path.join(ROOT, "check"), "quick", pid], env=env, stdout=subprocess.PIPE, stderr=subprocess.STDOUT, text=True)
+                    v = {0: "MISSED", 1: "caught", 2: "inconclusive"}.get(p.returncode, "rc=%d" % p.returncode)
+                    if p.returncode == 1 and "VIOLATION property=" not in p.stdout:
+                        v = "driver-error"  # an exception in the driver is not a catch
+                        print(p.stdout[-1500:])
+                    if v == "inconclusive":
+                        print(p.stdout[-1500:])
+                    verdicts.append(v)
+                # with several seeds a change counts as caught only if every seed catches it
+                if all(v == "caught" for v in verdicts):
+                    verdict = "caught" if len(seeds) == 1 else "caught %d/%d" % (len(seeds), len(seeds))
+                elif len(seeds) == 1:
+                    verdict = verdicts[0]
+                else:
+                    verdict = "FLAKY " + ",".join("%s:%s" % (sd, v) for sd, v in zip(seeds, verdicts))
                 results.setdefault(name, {})[pid] = verdict
                 print("%-45s %-4s %-12s %.0fs" % (name, pid, verdict, time.time() - t0), flush=True)
-                if verdict == "inconclusive":
-                    print(p.stdout[-1500:])
         finally:
             subprocess.run(["git", "-C", "/repo", "worktree", "remove", "--force", wt], stdout=subprocess.DEVNULL, stderr=subprocess.DEVNULL)
             shutil.rmtree(wt, ignore_errors=True)
